@@ -5,6 +5,7 @@ import (
 	"fmt"
 	"os"
 	"runtime/pprof"
+	"strings"
 	"syscall"
 	"time"
 )
@@ -15,7 +16,7 @@ func bench() {
 	defer os.RemoveAll(dir)
 	_ = os.Chdir(dir)
 	_ = os.MkdirAll(dir+"/exp", 0o755)
-	w := &workerState{dir: dir, port: 24990, expMemo: map[string]*expected{}}
+	w := &workerState{dir: dir, port: 24990, expMemo: map[string]*expected{}, names: pathNames}
 	w.base = baseConf(w.port)
 	cpu := func() time.Duration {
 		var ru syscall.Rusage
@@ -23,7 +24,7 @@ func bench() {
 		return time.Duration(ru.Utime.Nano() + ru.Stime.Nano())
 	}
 	{
-		l, _ := w.start()
+		l, _ := w.start(bases()[0])
 		l.barrier()
 		pf, _ := os.Create("/tmp/c12-cpu.prof")
 		_ = pprof.StartCPUProfile(pf)
@@ -53,7 +54,7 @@ func bench() {
 		l.close()
 		c0, t0 = cpu(), time.Now()
 		for i := 0; i < 20; i++ {
-			l, _ := w.start()
+			l, _ := w.start(bases()[0])
 			l.barrier()
 			l.close()
 		}
@@ -69,7 +70,7 @@ func bench() {
 	}
 	for i := 0; i < 1; i++ {
 		t0 := time.Now()
-		l, err := w.start()
+		l, err := w.start(bases()[0])
 		if err != nil {
 			fmt.Println(err)
 			return
@@ -105,11 +106,27 @@ func replay(js string) {
 	_ = os.MkdirAll(dir+"/exp", 0o755)
 	w := &workerState{dir: dir, port: 24991, expMemo: map[string]*expected{}}
 	w.base = baseConf(w.port)
-	l, err := w.start()
+	b := bases()[0]
+	for _, x := range bases() {
+		if x.ID == *flagReplayBase {
+			b = x
+		}
+	}
+	w.names = b.names()
+	fmt.Printf("REPLAY base %s\n%s\n", b.ID, b.fileContent(w.base))
+	l, err := w.start(b)
 	if err != nil {
 		fmt.Println(err)
 		return
 	}
+	fmt.Printf("REPLAY   list: %s\n", c12short(l.get("/v3/config/paths/list"), 150))
+	showStored := func() {
+		line := strings.SplitN(snapOf(l.p.APIConfigSnapshot()), "\n", 2)[0]
+		if i := strings.Index(line, `"paths":`); i >= 0 {
+			fmt.Printf("REPLAY   running configuration, optional paths as stored: %s\n", c12short(line[i:], 200))
+		}
+	}
+	showStored()
 	for _, op := range ops {
 		m, p := op.Request()
 		st, body, err := l.do(m, p, op.Payload)
@@ -122,6 +139,7 @@ func replay(js string) {
 			break
 		}
 		fmt.Printf("REPLAY   list: %s\n", c12short(l.get("/v3/config/paths/list"), 150))
+		showStored()
 	}
 	l.close()
 }
